@@ -21,7 +21,7 @@ PID = 'C11'
 
 TIERS = {
     #            4-site meshes, singles 1-in-Thin, lines, twins, pairs (free riders), 5-site meshes, Thin5, B3 seeded, CORONET
-    'quick': dict(meshes4=300, thin=15, lines=12, twins=6, pairs=12, meshes5=0, thin5=0, b3=40, conus=14, glob=0),
+    'quick': dict(meshes4=130, thin=20, lines=12, twins=6, pairs=12, meshes5=0, thin5=0, b3=40, conus=14, glob=0),
     'thorough': dict(meshes4=None, thin=40, lines=6, twins=3, pairs=5, meshes5=150, thin5=15, b3=300, conus=60, glob=25),
 }
 
@@ -30,7 +30,7 @@ def b1_runs(ids4, w, doubling=False):
     """the two model-checking runs of B1 as thunks (run side by side with the generation)"""
     def small():
         return (f'MC_Routing 3 sites: all {500 if doubling else 125} meshes, all src/dst, all include lists <= 2, all labellings',
-                tlc.run('MC_Routing', cfg_text=ru.mc_cfg(NSites=3, OneSrcDst=False, LinePer=12, TwinPer=3, PairPer=9,
+                tlc.run('MC_Routing', cfg_text=ru.mc_cfg(NSites=3, OneSrcDst=False, LinePer=6, TwinPer=3, PairPer=5,
                                                          Doubling=doubling),
                         timeout=1800, tag='c11-mc3', workers=w))
 
@@ -68,23 +68,18 @@ def run(chk):
     gen = dict(NSites=4, OneSrcDst=False, Thin=p['thin'], LinePer=p['lines'], TwinPer=p['twins'], PairPer=p['pairs'],
                TriplePer=0, OverlapPer=0, Salt=salt)
     parts = ru.slices(ids4, 2048)              # bounded memory: generate / replay / judge 2048 meshes at a time
-    big = None
-    if all4:                                   # the exhaustive 4-site run goes on beside the whole replay
-        small, four = b1_runs(None, max(2, ru.nworkers() // 2), doubling=True)
-        big = ru.background(four)
-        w = ru.share(4)
-        (n1, r1), jobs = ru.parallel(small, lambda: ru.generate(chk, parts[0], 'c11-gen4', workers=w, **gen))
-    else:
-        w = ru.share(3)
-        small, four = b1_runs(ids4, w)
-        (n1, r1), (n2, r2), jobs = ru.parallel(small, four,
-                                               lambda: ru.generate(chk, parts[0], 'c11-gen4', workers=w, **gen))
-        chk.add_mc(n2, r2)
-    chk.add_mc(n1, r1)
+    # B1 (two TLC runs) goes on beside everything else and is collected at the end
+    small, four = b1_runs(None, max(2, ru.nworkers() // 2), doubling=True) if all4 else b1_runs(ids4[::3], ru.share(3))
+    # the generation (a TLC run) goes on while B3 is recorded here, in the main thread (time limits need it);
+    # B3 is judged in the same TLC pass as B2
+    gen_run = ru.background(lambda: ru.generate(chk, parts[0], 'c11-gen4', workers=ru.share(2), **gen))
+    recorded = b3(chk, p, random.Random(chk.seed + 3))
+    jobs = gen_run.result()
+    bg = [ru.background(small), ru.background(four)]
     chk.exhaustive = True
-    timing = dict(b1_and_first_generation=round(time.time() - t0, 1))
+    timing = dict(first_generation_and_b3_recording=round(time.time() - t0, 1))
     t1 = time.time()
-    stats, traces, metas = ru.b2(chk, PID, jobs, keep=keep_for_c11)
+    stats, traces, metas = ru.b2(chk, PID, jobs, keep=keep_for_c11, extra=recorded)
     acc = [stats]
     ru.pipelined(parts[1:], lambda part: ru.generate(chk, part, 'c11-gen4', workers=ru.share(2), **gen),
                  lambda jb: acc.append(ru.merge_stats(acc.pop(), ru.b2(chk, PID, jb, keep=keep_for_c11)[0])))
@@ -113,13 +108,9 @@ def run(chk):
                                 observed=[dict(st=x['st'], sites=x['p']['sites'], reverse=x['rev']['sites'])
                                           for x in ev['res']]))
     t1 = time.time()
-    b3(chk, p, rng)
-    timing['b3'] = round(time.time() - t1, 1)
-    if big is not None:
-        t1 = time.time()
-        n2, r2 = big.result()
-        chk.add_mc(n2, r2)
-        timing['waited_for_exhaustive_b1'] = round(time.time() - t1, 1)
+    for f in bg:
+        chk.add_mc(*f.result())
+    timing['waited_for_b1'] = round(time.time() - t1, 1)
     chk.cov['timing_s'] = timing
     chk.assume('generated meshes: 4 (thorough also 5) ROADM sites, at least one link, at most one pair of sites joined by two parallel link pairs, fibre pairs of '
                '50/140/300 km or 0 km amplifier-only patches (whole km: edge weights add 0.01 m per non-fibre hop, so length '
@@ -165,7 +156,10 @@ def b3(chk, p, rng):
         bench = ru.shipped_bench(fname, unit=1.0)
         evs, meta, skipped = [], [], 0
         for k, b in enumerate(ru.random_batches(bench, rng, count, groups=False, on_route=True)):
-            e = bench.run_batch(b, bidir=True, pick=k, limit=20)
+            if skipped >= 2:                                     # the search does not terminate here: give up
+                skipped += 1
+                continue
+            e = bench.run_batch(b, bidir=True, pick=k, limit=6)
             if 'skip' in e:
                 skipped += 1
                 continue
@@ -180,22 +174,15 @@ def b3(chk, p, rng):
         traces.append(t)
         metas[t['name']] = meta
         chk.cov[f'b3_{fname.split("_Topology")[0]}_skipped_timeouts'] = skipped
-    verdicts = ru.judge(traces, chk, 'c11-b3')
-    n = 0
-    for t in traces:
-        ok = ru.report(chk, PID, t, metas[t['name']], verdicts[t['name']], 'B3')
-        chk.traces += ok
-        n += len(t['ev'])
-        for b in metas[t['name']]:
-            chk.case((t['name'], str(b['reqs'])), nontrivial=True)
     chk.cov['b3_traces'] = len(traces)
-    chk.cov['b3_batches'] = n
+    chk.cov['b3_batches'] = sum(len(t['ev']) for t in traces)
     chk.assume('CORONET (75/100 ROADMs): optimality and blocked-exactly are NOT judged (no brute force possible); '
                'include lists there are taken from the shortest route so that the search terminates')
     e = traces[0]['ev'][0]
     chk.sample(dict(kind='B3 shipped mesh V2 services through the real planning(), judged by Trace_Routing',
                     requests=e['reqs'], groups=e['groups'],
                     observed=[dict(st=x['st'], sites=x['p']['sites']) for x in e['res']]), limit=4)
+    return traces, metas
 
 
 # ------------------------------------------------------------------------------------------------------ mutants
